@@ -3,6 +3,7 @@ CONSTANTS
   Dataset <- c_Dataset
   Comp <- c_Comp
   Owner <- c_Owner
+  DependsOn <- c_DependsOn
   Initial <- c_Initial
   InitialColl <- c_None
   LinkMenu <- c_MenuSmall
